@@ -557,6 +557,12 @@ def plan_C10(ctx):
         for h in chosen:
             cmds = expand_spline_script(tab, order, h)
             execs.append((len(cmds) * (order + 1), cmds))
+        if not ctx.quick():      # long random walks (growing and shrinking sizes, interleaved queries and copies): TLC -simulate, depth 12
+            from vcheck import tlc_generate
+            mo = 5 if order == 7 else order
+            for h in tlc_generate(ctx, "MCSplineObj", mcobj_cfg(mo, 12, True), "splinewalk_o%d" % order, workers=1, simulate=(400, 12)):
+                cmds = expand_spline_script(tab, order, h)
+                execs.append((len(cmds) * (order + 1), cmds))
     batches = balanced(execs, 32 if ctx.quick() else 96)
     env = {"VJ_KEEPMEMO": "1"}
     ctx.family, ctx.tracespec, ctx.env_flags = "spline", "TraceSpline", env
